@@ -1,8 +1,8 @@
 CONSTANTS
   Scenarios <- ScnAll
-  FixWait = TRUE
+  FixF10 = FALSE
   GenHist = FALSE
 INIT Init
 NEXT Next
-INVARIANTS Bounded AtMostOnce OkMeansRan NoForeignResult ErrMeansNotRun Released Counters
+INVARIANTS Bounded AtMostOnce OkMeansRan NoForeignResult ErrMeansNotRunModF10 Released Counters
 CHECK_DEADLOCK TRUE
